@@ -399,6 +399,9 @@ func c01judge(c *Ctx, p *c01plan, res map[string]*bres) {
 		if c01isStructDisjIdemClass(diffs, p, v) {
 			key = "C01|struct-disjunction-not-idempotent" // recorded finding
 		}
+		if c01isDefaultOnlyClass(diffs, p.src) {
+			key = "C01|default-of-unified-marked-disjunctions-depends-on-declaration-split" // recorded finding
+		}
 		c.Violate(key, fmt.Sprintf("rearrangement %v changes the value:\n  %s\n--- original\n%s\n--- rearranged\n%s", v.applied, strings.Join(diffs, "\n  "), trunc9(p.src, 1500), trunc9(v.text, 1500)),
 			map[string]any{"original": p.src, "rearranged": v.text, "applied": v.applied, "origin": p.origin})
 		return
@@ -581,10 +584,61 @@ func c01isZeroIterClass(diffs []string, src, text string) bool {
 		if i := strings.Index(l, ": "); i >= 0 {
 			l = l[i+2:]
 		}
-		isEmptyStruct := func(s string) bool { return s == "{}" || strings.HasPrefix(s, "{|closed=false") }
+		isEmptyStruct := func(s string) bool { return s == "{}" || s == "{|open}" || strings.HasPrefix(s, "{|closed=false") }
 		isTop := func(s string) bool { return strings.HasPrefix(s, "<_ acc=") }
 		if !(isEmptyStruct(l) && isTop(r)) && !(isTop(l) && isEmptyStruct(r)) {
 			return false
+		}
+	}
+	return true
+}
+
+// c01isDefaultOnlyClass recognises the recorded defect "the default that survives the unification of several marked
+// disjunctions with a bound depends on whether the bound is written in the same expression or as a separate
+// declaration": every differing field has the same disjuncts on both sides and differs only in which of them is
+// the default, and the program unifies at least two marked disjunctions.
+func c01isDefaultOnlyClass(diffs []string, src string) bool {
+	if strings.Count(src, "*") < 2 {
+		return false
+	}
+	strip := func(s string) string {
+		if i := strings.Index(s, "|default="); i >= 0 {
+			if j := strings.LastIndex(s, ")"); j > i {
+				return s[:i] + s[j:]
+			}
+		}
+		return s
+	}
+	rawFields := map[string]bool{}
+	for _, d := range diffs {
+		if !strings.HasPrefix(d, "raw ") {
+			continue
+		}
+		l, r, ok := strings.Cut(d, "  ≠  ")
+		if !ok {
+			return false
+		}
+		name := ""
+		if i := strings.Index(l, ": "); i >= 0 {
+			name, l = strings.TrimPrefix(l[:i], "raw "), l[i+2:]
+		}
+		if !strings.HasPrefix(l, "OR(") || strip(l) != strip(r) {
+			return false
+		}
+		rawFields[name] = true
+	}
+	if len(rawFields) == 0 {
+		return false
+	}
+	for _, d := range diffs {
+		if strings.HasPrefix(d, "final ") {
+			name := strings.TrimPrefix(d, "final ")
+			if i := strings.Index(name, ": "); i >= 0 {
+				name = name[:i]
+			}
+			if !rawFields[name] {
+				return false
+			}
 		}
 	}
 	return true
